@@ -58,7 +58,7 @@ def program(draw, tier="quick"):
         fs = free_sizes[3 - nfree :] if nfree else []
         total = C.prod(fs + sizes)
         ent = draw(st.lists(st.integers(-3, 3), min_size=total, max_size=total))
-        node = {"free": fs, "sizes": sizes, "cov": cov, "ent": ent}
+        node = {"free": fs, "sizes": sizes, "cov": cov, "ent": ent, "covform": draw(st.sampled_from(["list", "list", "negative", "mixed", "bool", "range"]))}
         if narrow_case:
             # a narrow integer type with entries whose products leave its range (the sums are still far inside int64)
             node["dt"] = draw(st.sampled_from(["int8", "int16", "int16", "int32", "int32", "uint8", "uint16", "float32"]))
@@ -131,7 +131,18 @@ def build_node(n):
         if info is not None and (arr.max(initial=0) > info.max or arr.min(initial=0) < info.min):
             arr = arr // n["mul"]  # entries must be representable in the requested type
         arr = arr.astype(n["dt"])
-    return Tensor(arr, covariant=n["cov"], tensor_rank=len(n["sizes"]))
+    cov = n["cov"]
+    how = n.get("covform", "list")
+    rank = len(n["sizes"])
+    if how == "negative":
+        cov = [i - rank for i in cov]  # the same indices counted from the end of the tensor part
+    elif how == "mixed":
+        cov = [i - rank if k % 2 else i for k, i in enumerate(cov)]
+    elif how == "bool" and len(cov) in (0, rank):
+        cov = len(cov) == rank
+    elif how == "range" and cov == list(range(len(cov))):
+        cov = range(len(cov))
+    return Tensor(arr, covariant=cov, tensor_rank=rank)
 
 
 # ------------------------------------------------------------------------------------------- reference model
@@ -246,8 +257,11 @@ def run_program(case):
     metas = [node_meta(n) for n in nodes]
     objs = [build_node(n) for n in nodes]
     arrays = [o.array for o in objs]
-    for o, m in zip(objs, metas):
+    for o, m, nd_ in zip(objs, metas, nodes):
         if sorted(o._covariant_indices) != m["cov"] or sorted(o._contravariant_indices) != m["con"]:
+            if "ent" in nd_:
+                # Tensor(array, covariant=..., tensor_rank=...) recorded other index types than it was asked for
+                return [Fail("MISMATCH", "node:index-types-of-the-constructed-tensor:" + str(nd_.get("covform", "list")) + (":with-collection-axes" if nd_.get("free") else ""), str((sorted(o._covariant_indices), m["cov"])))]
             raise HarnessError("node construction does not match meta")
     keep_going = bool(case.get("keep_going")) and form == "add_node"
     refused = []
@@ -327,7 +341,7 @@ def run_program(case):
     tag = ":selfloop" if selfloop else ""
     ok = ck.check(res.array.shape == ref.shape, "diagram:shape" + tag, (res.array.shape, ref.shape, expr))
     if ok:
-        ck.check(np.array_equal(res.array, ref) if not any(n.get("dt") == "float32" for n in nodes) else np.allclose(res.array, ref, rtol=1e-5), "diagram:values" + tag + (":narrow-dtype" if narrow else ""), expr)
+        ck.check(np.array_equal(res.array, ref) if not any(n.get("dt") == "float32" for n in nodes) else bool(np.all(np.abs(np.asarray(res.array, float) - np.asarray(ref, float)) <= 2e-5 * np.einsum(expr, *[np.abs(np.asarray(arrays[i], float)) for i in order]) + 1e-9)), "diagram:values" + tag + (":narrow-dtype" if narrow else ""), expr)
     ck.check(res.tensor_shape == (ncov, ncon), "diagram:tensor_shape" + tag, (res.tensor_shape, (ncov, ncon)))
     ck.check(sorted(res._covariant_indices) == list(range(nf, nf + ncov)), "diagram:cov-first" + tag, sorted(res._covariant_indices))
     ck.check(sorted(res._contravariant_indices) == list(range(nf + ncov, nf + ncov + ncon)), "diagram:contra-last" + tag, "")
@@ -358,6 +372,39 @@ def run_program(case):
             same = r3[1].array.shape == res.array.shape and np.array_equal(r3[1].array, res.array) and r3[1].tensor_shape == res.tensor_shape
             ck.check(same, "diagram:original-changed-by-an-edge-added-to-its-copy" + tag, (r3[1].array.shape, res.array.shape))
             ck.check(r3[0].array.ndim == res.array.ndim - 2, "diagram:copy-extended:rank", (r3[0].array.shape, res.array.shape))
+    # ... also when BOTH are extended by new nodes of different rank (last, the diagram under test is changed by this): the original with an extra
+    # matrix node denotes what a diagram built afresh from the same steps denotes, whatever was added to its copy in between
+    if not any(m["free"] for m in metas) and not narrow:
+        def rebuild():
+            if form == "ctor":
+                return TensorDiagram(*[(objs[s_], objs[t_]) for s_, t_ in edges])
+            nd = TensorDiagram()
+            if form == "add_node":
+                for o in objs:
+                    nd.add_node(o)
+            for s_, t_ in edges:
+                nd.add_edge(objs[s_], objs[t_])
+            return nd
+
+        dim0 = metas[order[0]]["shape"][-1] if order else 2
+        new_m = Tensor(np.arange(1, dim0 * dim0 + 1).reshape(dim0, dim0), covariant=[0])
+        new_v = Tensor(np.arange(2, dim0 + 2))
+
+        def both_extended():
+            d2 = d.copy()
+            d2.add_node(new_v)
+            d.add_node(new_m)
+            d2.add_node(new_m)
+            fresh = rebuild()
+            fresh.add_node(new_m)
+            return d.calculate(), fresh.calculate()
+
+        r4, f = call("diagram:copy-and-original-extended-by-new-nodes", both_extended)
+        if f:
+            ck.add(f)
+        else:
+            ck.check(r4[0].array.shape == r4[1].array.shape and np.array_equal(r4[0].array, r4[1].array) and r4[0].tensor_shape == r4[1].tensor_shape,
+                     "diagram:original-with-a-new-node-differs-from-a-diagram-built-afresh-after-its-copy-was-extended" + tag, (r4[0].array.shape, r4[1].array.shape))
     # operands untouched
     for o, a, n in zip(objs, arrays, nodes):
         if "ent" in n and not n.get("dt"):
@@ -390,6 +437,8 @@ def prog_labels(c):
         out.append("self-loop")
     if len({tuple(e) for e in c["edges"]}) < len(c["edges"]):
         out.append("repeated-edge")
+    if any(n.get("covform") in ("negative", "mixed") and n.get("cov") and n.get("free") for n in c["nodes"]):
+        out.append("negative-covariant-indices:node-with-collection-axes")
     if any(m["free"] for m in metas):
         out.append("collection-axes")
         fr = [m["free"] for m in metas if m["free"] is not None]
@@ -617,7 +666,7 @@ def run_epseps(case):
 LAWS = [
     Law("diagram_program", lambda tier: program(tier), run_program, prog_nontrivial, prog_labels, {"quick": 3000, "thorough": 60000},
         "generated diagram programs vs reference bookkeeping model", shard=4000,
-        mandatory=("self-loop", "repeated-edge", "collection-axes", "predicted-error", "valid", "narrow-integer-type-large-entries", "two-nodes-edges-in-both-directions", "collection-axes:later-node-has-two-more", "goes-on-after-a-refused-edge:accepted-edge-after-it")),
+        mandatory=("self-loop", "repeated-edge", "collection-axes", "predicted-error", "valid", "narrow-integer-type-large-entries", "two-nodes-edges-in-both-directions", "collection-axes:later-node-has-two-more", "goes-on-after-a-refused-edge:accepted-edge-after-it", "negative-covariant-indices:node-with-collection-axes")),
     Law("surface_forms", lambda tier: surface(tier), run_surface, lambda c: True, lambda c: [c["form"]], {"quick": 800, "thorough": 10000},
         "a*b, b.__rmul__(a), a**k, a.tensor_product(b), a*ndarray as their defining programs", shard=4000),
     Law("epsilon_table", None, run_eps, enumerate=eps_cases, exhaustive=lambda tier: {"name": "all entries of LeviCivitaTensor(n), n=1..%d, both variances" % (7 if tier == "thorough" else 6), "size": sum(n**n for n in range(1, 8 if tier == "thorough" else 7)) * 2, "exhaustive": True},
